@@ -294,6 +294,50 @@ fn main() {
         }
     }
 
+    // ---- inputs whose length is exactly the encoder's window buffer size (-1, 0, +1): the last
+    // match runs to the very end of a completely full window
+    if shard == 1 % nshards {
+        for (k, (dict, normal, lzma2)) in [(4096u32, false, false), (4096, true, false), (8192, false, true), (65536, true, true), (4097, false, false)]
+            .iter()
+            .enumerate()
+        {
+            let extra_before: u32 = if *lzma2 { (65536u32).saturating_sub(*dict).max(if *normal { 4096 } else { 1 }) } else if *normal { 4096 } else { 1 };
+            let extra_after: u32 = if *normal { 4096 } else { 272 };
+            let buf = *dict + extra_before + extra_after + 273 + (*dict / 2 + (256 << 10));
+            for d in [-1i64, 0, 1] {
+                let len = (buf as i64 + d) as usize;
+                let mut r = Rng::new(mix(seed, 0xC14_ED6E + k as u64));
+                let period = 1 + r.usize_below(40);
+                let pat = r.bytes(period);
+                let data: Vec<u8> = (0..len).map(|i| pat[i % period]).collect();
+                let (mode, mf, nice) = if *normal { (EncodeMode::Normal, MFType::BT4, 64) } else { (EncodeMode::Fast, MFType::HC4, 32) };
+                let o = LZMAOptions::new(*dict, 3, 0, 2, mode, nice, mf, 0);
+                let c = if *lzma2 { Cont::Lzma2 } else { Cont::LzmaHeader };
+                let out = catch_unwind(AssertUnwindSafe(|| {
+                    // one write: the window is filled to its last byte before finishing
+                    let w = Vec::new();
+                    match c {
+                        Cont::Lzma2 => {
+                            let mut wr = LZMA2Writer::new(w, LZMA2Options { lzma_options: o.clone(), chunk_size: None });
+                            wr.write_all(&data).map_err(|e| kind_of(&e))?;
+                            wr.finish().map_err(|e| kind_of(&e))
+                        }
+                        _ => {
+                            let mut wr = LZMAWriter::new_use_header(w, &o, None).map_err(|e| kind_of(&e))?;
+                            wr.write_all(&data).map_err(|e| kind_of(&e))?;
+                            wr.finish().map_err(|e| kind_of(&e))
+                        }
+                    }
+                }));
+                match out {
+                    Ok(Ok(s)) => println!("W {k}.{} dict={dict} normal={normal} lzma2={lzma2} len={len} out={} h={:016x}", d + 1, s.len(), hash64(&s)),
+                    Ok(Err(e)) => println!("W {k}.{} ERR {e}", d + 1),
+                    Err(_) => println!("W {k}.{} PANIC", d + 1),
+                }
+            }
+        }
+    }
+
     // ---- tiny LZMA2 chunks whose range coder input ends inside a direct-bits run
     if shard == 0 {
         let mut r = Rng::new(mix(seed, 0xC14_CCCC));
